@@ -7,6 +7,13 @@ from . import common
 
 def observe(case):
     """-> dict of observed facts for the case's item"""
+    if case.get("kind") == "dump":
+        from . import c19
+        pl = case["plain"]
+        dres, plain = common.expand_many([(case.get("mode", "attr"), case.get("attr", ""), case["item"]), (pl["mode"], pl["attr"], pl["item"])])
+        d = c19.compare_impl_dump(plain, dres) if case.get("order") is None else c19.compare_dump(plain, dres, case["order"], set(case["dumped"]), case.get("mode", "attr"))
+        return {"dump_diff": d, "with_dump": [it.get("msg", it.get("text", ""))[:300] for it in dres.get("items", [])],
+                "without_dump": [it.get("text", "")[:300] for it in plain.get("items", [])]}
     res = common.expand_many([(case.get("mode", "attr"), case.get("attr", ""), case["item"])])[0]
     errs = common.compile_errors(res)
     impls = [it for it in res.get("items", []) if it.get("kind") == "impl"]
@@ -42,6 +49,14 @@ def disagrees(case, obs):
         if got is None:
             return True
         return got != [sorted(common.norm(m) for m in case["expected_markers"]), sorted(case["expected_field_types"])]
+    if k == "dump":
+        return obs["dump_diff"] not in (None, "skip")
+    if k == "eq_binders":
+        from . import c17
+        return c17.binders_misplaced(obs["out"]) is not None
+    if k == "attr_order":
+        import re
+        return re.findall(r"k\d+", obs["item0"]) != case["expected_docs"] or "derive_ex" in obs["item0"]
     if k == "reject":
         return obs["rejected"] != case["expected_reject"]
     if k == "reject_trait":
